@@ -1,7 +1,7 @@
 (* C11 - source text is read with the documented precedence, literals and comments. *)
 From HclV Require Import Base Expr Machine Graph Build Lexer Parser LexParseSpec LexParseProofs Generated TriviaSpec TriviaProofs.
 From HclV Require Import LexRoundTripSpec LexRoundTripProofs.
-From HclV Require ParserSoundSpec ParserSoundProofs LexLocSpec LexLocProofs.
+From HclV Require ParserSoundSpec ParserSoundProofs LexLocSpec LexLocProofs LexTable LexTableProofs.
 Open Scope list_scope.
 Open Scope N_scope.
 
@@ -11,6 +11,16 @@ Open Scope N_scope.
 Theorem C11_tiers : gen_tiers = Some doc_tiers.
 Proof. vm_compute. reflexivity. Qed.
 Print Assumptions C11_tiers.
+
+(* tie to the code: the punctuation arms of Lexer::next and the keyword arms of resolve_identifier,
+   scraped from src/lexer.rs on this run, against the model lexer - every row (a character alone is
+   its one-character token; followed by a listed second character the two-character token; followed
+   by any other ASCII character still that one-character token), the default arm (every other ASCII
+   character that is no blank, letter, digit or '_' is a lexical error), the three characters
+   handled by code (# / .), and the keywords; and there are no other keywords *)
+Theorem C11_lexer_tables : LexTable.stmt_lex_table_matches /\ LexTable.stmt_no_other_keywords.
+Proof. split; [exact LexTableProofs.lex_table_matches_holds | exact LexTableProofs.no_other_keywords_holds]. Qed.
+Print Assumptions C11_lexer_tables.
 
 (* tie to the code: the predefined names of the compiled implementation's preamble, read by the
    model's own lexer, parser (with the scraped table) and constant evaluator, have their CS:APP
